@@ -78,5 +78,45 @@ CLAIMED.update({
         "technique": TECH,
     },
 })
+CLAIMED.update({
+    "C02": {
+        "text": "Proof (partial for the control path). Data path, proved in full (Props/C02.v): an instruction flowing alone through the "
+                "modelled ID/EX/MEM/WB stages has exactly the effect of the single-cycle behavior() for every supported instruction, "
+                "operand, register file, memory system and pc (split_agrees), incl. the 32-bit wrap of the JALR target (defect D1, "
+                "fixed), load extension through raw negative intermediates, store masking, x0. Control path: structural laws and the "
+                "reachable-shape invariant of the modelled pipeline (Props/C07.v, C08.v); the full refinement theorem "
+                "pipe_refines_single is stated in DESIGN.md and not yet closed. The property itself is decided on everything explored by "
+                "(a) cycle-by-cycle correspondence of Model/Pipe.v with pipeline.py/stages.py and (b) five-stage vs single-cycle on the "
+                "implementation: exhaustively over all sequences up to length 3 (quick) / 4 (thorough) of a 17-instruction "
+                "hazard-complete alphabet x 2 presets, and random programs incl. wrapping jalr targets, faults, ecall drains.",
+        "note": NOTE_COMMON + "The control-path refinement (stall/flush interplay preserves program order) is not a closed theorem; "
+                "for it the check is exhaustive small-scope + random differential testing. CSR/FENCE/EBREAK excluded.",
+        "technique": "Coq proof of the data path (split = behavior) + pipeline laws; control path by model correspondence and exhaustive small-scope mode comparison",
+    },
+    "C03": {
+        "text": "Props/C03.v proves for every admissible geometry (index/block bits, associativity; PLRU with power-of-two ways), both write "
+                "policies, both replacement policies and every penalty: a cache invariant preserved by every operation; every accepted "
+                "read returns what an uncached memory holding the logical contents returns and leaves the logical contents unchanged; "
+                "every accepted write updates the logical contents exactly like the uncached write; rejected accesses (word crossing or "
+                "out of range) leave every stored value unchanged; an access crosses a word iff it is rejected with the offset error "
+                "(both policies, hit or miss — defect D5, fixed); range errors agree with flat memory; and by induction transparency of "
+                "every access history from any preloaded memory. Tied to the implementation by comparing results, error fields, the full "
+                "block directory, replacement state, counters and lower memory after every operation of random histories (explicit-state "
+                "enumeration on tiny geometries in the thorough tier); the implementation is also compared directly with a flat "
+                "reference store, and whole programs are run with the cache on and off in both modes.",
+        "note": NOTE_COMMON + "Program-level corollary (cached run = flat run) is checked differentially, not proved; block_bits <= 12 assumed.",
+        "technique": TECH,
+    },
+    "C12": {
+        "text": "Props/C12.v proves as state invariants over every access history: for write-through caches backing memory equals the logical "
+                "contents and every resident block equals its backing block; for write-back caches backing memory can differ from the "
+                "logical contents only inside resident blocks; displacing a block writes it back so that no logical byte changes "
+                "(every valid block is dirty in the model as in the code); every reachable state satisfies the invariants. The same "
+                "invariants are evaluated on the IMPLEMENTATION's state (backing store vs flat reference vs resident blocks) after "
+                "every operation of the C03 histories.",
+        "note": NOTE_COMMON,
+        "technique": TECH,
+    },
+})
 _PENDING = "check not built yet (model/theorems under construction); see DESIGN.md section 9"
 NOT_APPLICABLE = {f"C{i:02d}": _PENDING for i in range(1, 21) if f"C{i:02d}" not in CLAIMED}
